@@ -30,7 +30,7 @@ ASSUMPTIONS = ["numerary / beartype as installed decide what the type-checker re
 EXPLANATION = "theorems C19_asInt_iff, C19_count, C19_repeat, C19_parity, C19_position(+_float), C19_within, C19_both_limits, C19_roll_outcome, C19_limit_int/_fractional/_nonfinite"
 
 ARGS = ["f:1.0", "q:1/1", "q:3/2", "f:1.5", "q:999/1000", "i:2", "i:0", "i:1", "i:-1", "i:-3", "i:7", "b:1", "b:0", "n:2", "n:-1", "f:2.0", "f:0.0", "f:2.5", "f:-1.0", "f:0.5", "f:0.25", "f:nan", "f:inf", "f:-inf", "q:2/1", "q:5/2", "q:1/3", "q:-1/1", "q:0/1", "s:a", "x:None"]
-ENTRIES = ["count", "count_dup", "count_acc", "repeat_h", "repeat_rh", "repeat_p", "repeat_r", "ostat_n", "parity", "parity_fn", "pos_h", "pos_rwc", "pos_getitem", "limit_explode", "limit_foreach", "within", "both", "rolloutcome"]
+ENTRIES = ["count", "count_dup", "count_acc", "repeat_h", "repeat_rh", "repeat_p", "repeat_r", "ostat_n", "parity", "parity_fn", "pos_h", "pos_rwc", "pos_getitem", "pos_h0", "pos_rwc0", "limit_explode", "limit_foreach", "within", "both", "rolloutcome"]
 
 
 def dec_arg(s):
@@ -138,6 +138,12 @@ def _evaluate(case):
             elif e == "pos_rwc":
                 got = sorted(p3.rolls_with_counts(arg))
                 out = "accept %d" % (int(arg) % 3) if got == sorted(p3.rolls_with_counts(int(arg))) else "accept-but-differs"
+            elif e == "pos_h0":
+                P().h(arg)  # no position exists in the pool without dice
+                out = "accept-on-empty-pool"
+            elif e == "pos_rwc0":
+                list((0 @ p3).rolls_with_counts(arg))
+                out = "accept-on-empty-pool"
             elif e == "pos_getitem":
                 got = p3[arg]
                 out = "accept %d" % (int(arg) % 3) if got is p3[int(arg)] else "accept-but-differs"
@@ -234,6 +240,8 @@ def model(case):
         return " ".join(["GUARD", "2"] + arg_tokens(case["arg"]))
     if e in ("pos_h", "pos_rwc", "pos_getitem"):
         return " ".join(["GUARD", "3", "3"] + arg_tokens(case["arg"]))
+    if e in ("pos_h0", "pos_rwc0"):
+        return " ".join(["GUARD", "3", "0"] + arg_tokens(case["arg"]))
     if e in ("limit_explode", "limit_foreach"):
         return " ".join(["GUARD", "4"] + arg_tokens(case["arg"]))
     if e == "within":
